@@ -134,15 +134,19 @@ pub mod bytes {
                     }
                 }
                 contract::Mode::Contract(end) => {
-                    let shaped = contract::ref_shape_end(hay);
-                    match shaped {
-                        None => None,
-                        Some(e) => {
-                            // The harness promised this end offset for every well-shaped input it can produce.
-                            assert!(e == end, "VERIF_CONTRACT_MISUSE: harness promised a different hex end offset");
-                            Some(Captures { hay, contract_end: Some(end), caps: [generated::NONE; generated::NSLOTS] })
-                        }
-                    }
+                    // The harness promises: this input is well-shaped and its hex text ends at `end`
+                    // (it assumed so for symbolic input; for encoder output it is an obligation).
+                    // Checked by the solver, so the decoder below is explored on one path only.
+                    assert!(
+                        contract::ref_shape_end(hay) == Some(end),
+                        "VERIF_SHAPE: text handed to the decoder does not have the documented shape promised by the harness (for encoder output: the encoding is malformed)"
+                    );
+                    Some(Captures { hay, contract_end: Some(end), caps: [generated::NONE; generated::NSLOTS] })
+                }
+                contract::Mode::Reject => {
+                    // The harness promises: this input does not have the documented shape.
+                    assert!(contract::ref_shape_end(hay).is_none(), "VERIF_SHAPE: harness promised a malformed text");
+                    None
                 }
                 contract::Mode::Unset => {
                     assert!(false, "VERIF_CONTRACT_MISUSE: regex stand-in used without selecting a mode");
